@@ -175,6 +175,9 @@ Fixpoint run_program (ps : pstate) (st : bstate) (steps : list tree) : list tree
       | None => [t_bad]
       end
   | TL [TI 20] :: rest => TL [TI 0] :: run_program ps b_init rest
+  (* an assignment to a field of the storage unit label (a plain object): nothing happens until the next write, which
+     receives the label's fields as they are then (w_seq, w_vrl, w_ident) *)
+  | TL [TI 13] :: rest => TL [TI 0] :: run_program ps st rest
   | t :: rest =>
       match as_op t with
       | Some o => let '(ps', st', out) := step ps st o in t_outcome out :: run_program ps' st' rest
